@@ -156,7 +156,9 @@ static void ev_Bexpp1(mp_size_t n, int kind, int place, int adv) {
   rnd_limbs(y, n, kind); rnd_limbs(z, n, adv == 1 ? 1 : (kind + 3) % NKINDS); y[n] = z[n] = 0;
   if (adv == 2) { MPN_ZERO(y, n); y[n] = 1; } if (adv == 3) { MPN_ZERO(z, n); z[n] = 1; } if (adv == 4) { MPN_ZERO(y, n); y[n] = 1; MPN_ZERO(z, n); z[n] = 1; }
   if (adv == 5) { unsigned long e = rnd_below(64 * n), f = 64 * n - e; set_pow2(y, n + 1, e); set_pow2(z, n + 1, f); }
-  fn_begin("mpn_mulmod_Bexpp1"); fn_in_limbs("a", y, n + 1); fn_in_limbs("b", z, n + 1); fn_in_int("n", n); fn_mid(); gb_fill(r, n + 1); gb_fill(t, 2 * n);
+  if (adv == 6) { MPN_ZERO(y, n + 1); y[0] = 1; MPN_ZERO(z, n); z[n] = 1; if (kind & 1) { mp_ptr w = y; y = z; z = w; } }      /* 1 * B^n: the result is B^n itself */
+  if (adv == 7) r = y;                                                                                          /* in place, as the FFT code calls it */
+  fn_begin("mpn_mulmod_Bexpp1"); fn_in_limbs("a", y, n + 1); fn_in_limbs("b", z, n + 1); fn_in_int("n", n); fn_mid(); if (r != y) gb_fill(r, n + 1); gb_fill(t, 2 * n);
   ret = mpn_mulmod_Bexpp1(r, y, z, n, t); fn_out_limbs("r", r, n + 1); fn_out_int("ret", ret); fn_end();
 }
 void drv_k1_mulmod(int tier, unsigned long seed, const char *extra) {
@@ -185,7 +187,7 @@ void drv_k1_mulmod(int tier, unsigned long seed, const char *extra) {
   { int found = 0; for (n = 1; n < 4000 && found < (tier ? 8 : 3); n++) { if (n > 40 && n < FFT_MULMOD_2EXPP1_CUTOFF - 1 && n % 16) continue; if (n > FFT_MULMOD_2EXPP1_CUTOFF && n != mpir_fft_adjust_limbs(n)) continue; if (n > FFT_MULMOD_2EXPP1_CUTOFF) found++;
       x++; if (!MINE(sh, x)) continue;
       rec_reset("k1_mulmod", x, seed);
-      for (kind = 0; kind < (n > 40 ? 3 : NKINDS); kind++) for (adv = 0; adv < 6; adv++) if (adv < 2 || kind < 2) ev_Bexpp1(n, kind, (adv + kind) & 1, adv); } }
+      for (kind = 0; kind < (n > 40 ? 3 : NKINDS); kind++) for (adv = 0; adv < 8; adv++) if (adv < 2 || kind < 2 || adv == 7) ev_Bexpp1(n, kind, (adv + kind) & 1, adv); } }
 }
 
 /* ------------------------------------------------------------------ k1_redc */
